@@ -161,7 +161,8 @@ def cbz_sem(S, f):
     S.assign(St.merge(nonzero != iszero, T, S))
 
 
-Enc('CbzT1', 'T16', '1011 op 0 i 1 imm5 Rn:3', family=FAM, unpred=lambda f, S: in_it_block(S), sem=cbz_sem)
+Enc('CbzT1', 'T16', '1011 op 0 i 1 imm5 Rn:3', family=FAM, unpred=lambda f, S: in_it_block(S), sem=cbz_sem,
+    known=[('F013', lambda f, S: cat(f['i'], f['imm5']) != 0)])
 
 
 def tbb_sem(S, f):
